@@ -106,6 +106,11 @@ def ctrFromReconciler (pod : List (Option Ctr)) (a : Ann) (i : Nat) : Option Ctr
     | some (some m) => lookup m i
     | _ => none
 
+/-- a container without a status / container id has no cgroup yet: `FromReconciler` returns before it looks at any
+    spec, and the rule callbacks (which walk the container statuses) never reach it. -/
+def ctrFromReconcilerSt (hasId : Bool) (pod : List (Option Ctr)) (a : Ann) (i : Nat) : Option Ctr :=
+  if hasId then ctrFromReconciler pod a i else none
+
 /-- what the pod webhook (`mutateByExtendedResources`) dumps for this pod. -/
 def webhookDump (pod : List (Option Ctr)) : Ann :=
   match declaredFrom 0 pod with
@@ -170,5 +175,39 @@ def applyOut (v2 : Bool) (init : Files) : Option Out → Files
 def applyQuota (v2 : Bool) (init : Files) : Option Out → Files
   | none => init
   | some o => { init with quota := writeLimit v2 o.quota }
+
+/-! ### rule glue (rule.go getCPUSuppressPolicy / parseRuleForNodeSLO, apis/extension GetCPUNormalizationRatio) -/
+
+/-- the merged NodeSLO handed to `parseRuleForNodeSLO`: nil spec, no BE strategy, or a strategy with its `enable`
+    value and its policy (0 = unset "", 1 = cpuset, 2 = cfsQuota). -/
+inductive SloShape where
+  | nilSpec
+  | noStrategy
+  | strategy (enable : Bool) (policy : Nat)
+deriving Repr, DecidableEq
+
+/-- `getCPUSuppressPolicy`: the DEFAULT strategy (disabled, cpuset) when the spec, the strategy or its policy is unset. -/
+def suppressPolicyOf : SloShape → Bool × Nat
+  | .nilSpec => (false, 1)
+  | .noStrategy => (false, 1)
+  | .strategy e p => if p = 0 then (false, 1) else (e, p)
+
+/-- `parseRuleForNodeSLO`: `if enable && policy == cfsQuota { enableCFSQuota = false }`. -/
+def sloEnablesCFS (s : SloShape) : Bool :=
+  let (e, p) := suppressPolicyOf s
+  !(e && p == 2)
+
+/-- the node's cpu-normalization-ratio annotation: absent, not a float / not positive, or a ratio in hundredths. -/
+inductive RatioAnn where
+  | absent
+  | malformed
+  | value (pct : Int)
+deriving Repr, DecidableEq
+
+/-- `GetCPUNormalizationRatio` + `parseRuleForNodeMeta`: absent ⇒ the -1 sentinel (hundredths: -100). -/
+def ratioEv : RatioAnn → RuleEv
+  | .absent => .nodeRatio (-100)
+  | .malformed => .nodeBad
+  | .value pct => if pct ≤ 0 then .nodeBad else .nodeRatio pct
 
 end KoordVerif.C14
